@@ -156,6 +156,10 @@ pub mod rete;
 pub mod streaming;
 /// Core type definitions for values, operators, and actions
 pub mod types;
+/// Verification hooks (event sink, schedule points) - requires 'verif-hooks' feature
+#[cfg(feature = "verif-hooks")]
+#[allow(missing_docs)]
+pub mod verif_hooks;
 
 // Re-export core types for easy access
 pub use errors::{Result, RuleEngineError};
